@@ -228,6 +228,12 @@ def triage(unit, gen, vr, unit_cfg):
                     break
         if cls == "precondition" and prim is not None and re.search(r"\b(unimplemented|unreachable|panic|todo)!\s*\(", "".join(x.get("text", "") for x in prim.get("text", []))):
             cls = "panic-freedom"
+        if label is None and fn is None:
+            # an unlabelled proof step of the template's own prelude (a lemma, a shim body): the proof script needs
+            # attention, but no named obligation of a property failed -> undecided, never an alarm
+            tool_errors.append({"kind": "prelude-proof", "message": "%s in the unit's prelude at %s (no labelled obligation)" % (msg, where or "?"),
+                                "rendered": d.get("rendered", "")})
+            continue
         if label is None:
             label = where or "?"
         # property attribution
